@@ -526,7 +526,7 @@ Section Machine.
   Lemma ml_pre f s repos :
     MStable (s, repos) ->
     let L := lang mc f in
-    let c := mkCfg (lglob mc L) false [] in
+    let c := mkCfg (lglob mc L) false [] false in
     let s0 := with_allm s (if lglob mc L then repo_of repos L else []) in
     let xvals := flat_map (fun Lr => if Nat.eqb (fst Lr) L then [] else map snd (snd Lr)) repos in
     Stable s0 /\ XOK (length (heap s0)) (ext_of mc repos L) (begin_op c s0) /\
@@ -584,7 +584,7 @@ Section Machine.
   Proof.
     destruct ms as [s repos]. intro HM. unfold ml_load.
     destruct (ml_pre f s repos HM) as [HS0 [HX [Hxv Hxb]]].
-    set (L := lang mc f) in *. set (c := mkCfg (lglob mc L) false []) in *.
+    set (L := lang mc f) in *. set (c := mkCfg (lglob mc L) false [] false) in *.
     set (s0 := with_allm s (if lglob mc L then repo_of repos L else [])) in *.
     set (xvals := flat_map _ repos) in *.
     destruct (load_main_x_frame (ext_of mc repos L) xvals fs c f s0 HS0 HX Hxv Hxb) as [HS' [Fh Fc]].
@@ -603,7 +603,7 @@ Section Machine.
   Proof.
     intros HM. pose proof (ml_load_stable f (s, repos) HM) as HM'. revert HM'. unfold ml_load.
     destruct (ml_pre f s repos HM) as [HS0 [HX [Hxv Hxb]]].
-    set (L := lang mc f) in *. set (c := mkCfg (lglob mc L) false []) in *.
+    set (L := lang mc f) in *. set (c := mkCfg (lglob mc L) false [] false) in *.
     set (s0 := with_allm s (if lglob mc L then repo_of repos L else [])) in *.
     set (xvals := flat_map _ repos) in *.
     destruct (load_main_x (ext_of mc repos L) xvals fs c f s0) as [r s1] eqn:E. cbn [fst snd].
@@ -816,12 +816,12 @@ Qed.
    load's all_models (the importer's repository) for the target's file *)
 Theorem ml_identity_created fs mc f s repos m s' repos' y n t i :
   MStable (s, repos) -> ml_load fs mc f (s, repos) = (inr m, (s', repos')) ->
-  length (heap s) <= y -> resolve_name (mkCfg (lglob mc (lang mc f)) false []) s' y n = Some (t, i) ->
+  length (heap s) <= y -> resolve_name (mkCfg (lglob mc (lang mc f)) false [] false) s' y n = Some (t, i) ->
   t = y \/ dget (file_of t s') (allm s') = Some t.
 Proof.
   intros HM. unfold ml_load.
   destruct (ml_pre mc f s repos HM) as [HS0 [HX [Hxv Hxb]]].
-  set (L := lang mc f) in *. set (c := mkCfg (lglob mc L) false []) in *.
+  set (L := lang mc f) in *. set (c := mkCfg (lglob mc L) false [] false) in *.
   set (s0 := with_allm s (if lglob mc L then repo_of repos L else [])) in *.
   set (xvals := flat_map _ repos) in *.
   destruct (load_main_x_frame (ext_of mc repos L) xvals fs c f s0 HS0 HX Hxv Hxb) as [HS' _].
